@@ -83,7 +83,9 @@ class C13(Machine):
         macs = [mac]
         if rng.random() < 0.35:
             # a second HMAC object over the SAME hash object, re-keyed and used concurrently
-            mac2 = pb.obj({"kind": "HMAC", "h": {"obj": h}, "key": B(rbytes(rng, klen(rng.choice(KCLASSES), bb, d)))})
+            h2 = h if rng.random() < 0.5 else pb.obj(dict(rec))      # same hash object, or another instance of its class
+            mac2 = pb.obj({"kind": "HMAC", "h": {"obj": h2}, "key": B(rbytes(rng, klen(rng.choice(KCLASSES), bb, d)))})
+            pb.plan["meta"].setdefault("hof", {})[str(mac2)] = h2
             macs.append(mac2)
             c2 = pb.client()
             for _ in range(rng.randint(1, 3)):
@@ -145,7 +147,8 @@ class C13(Machine):
             elif s["name"] == "__call__":
                 if prev_cls is None:
                     prev_cls = s.get("kcls")
-                mini = {"objects": [plan["objects"][h], {"kind": "HMAC", "h": {"obj": 0}, "key": cur}],
+                hh = meta.get("hof", {}).get(str(mo), h)
+                mini = {"objects": [plan["objects"][hh], {"kind": "HMAC", "h": {"obj": 0}, "key": cur}],
                         "steps": [{"id": 1, "k": "call", "obj": 1, "name": "__call__", "args": s["args"], "kw": {}}],
                         "observe": [], "fp": []}
                 exp = oracle.ask(mini)[0]["out"]
